@@ -129,6 +129,14 @@ CHECKS["C19"] = dict(
     ref="DESIGN.md 5.C19",
 )
 
+CHECKS["C15"] = dict(
+    engine="symx+z3",
+    technique="bounded symbolic execution (symx/z3) of the real greenlet glue + StackSlice slicing over solver-enumerated scenarios on real greenlets; oracle = shadow call log / gr_frame f_back walk",
+    text="GREENLET HALF ONLY. Parent chains of 1..3 (thorough 4) nested greenlets with 0..2 (3) calls each; target any greenlet of the chain; asked from the main greenlet, from the target itself and from a descendant (0..1 calls deeper); unstarted, dead and running-in-another-thread greenlets: exactly the target's own frames / no frames / a RuntimeError in .error.",
+    note="The greenback half of C15 (await_ bridges) is NOT covered: it needs a Trio task with a portal, i.e. the Trio run loop (same reasons as C14). LOW SOLVER LEVERAGE. PyPy greenlets are outside.",
+    ref="DESIGN.md 5.C15",
+)
+
 NOT_APPLICABLE = {
     "C06": "Quantifies over interpreter bookkeeping (reference counts, object lifetime, crashes) behind a ctypes boundary; no value a solver can range over, and any symbolic engine perturbs the very refcounts measured (DESIGN.md 5.C06).",
     "C07": "OS-thread interleavings against raw-memory reads; depends on when CPython releases the GIL, not on Python-level data; needs a runtime schedule controller, a different technique family (DESIGN.md 5.C07).",
